@@ -123,6 +123,11 @@ func (c07) Run(c *Ctx, i int) CaseResult {
 	corpus := i < len(c07Corpus)
 	if corpus {
 		in = c07Corpus[i].In
+	} else if r.Intn(4) == 0 {
+		// two nested lists fetched by one step (the outer one with a null element), joined from another service
+		in = FedInput{Spec: FixedFed2(), Query: []string{`{ allPhotos { likedBy { nick } } }`, `{ allPhotos { url likedBy { firstName lastName } } }`,
+			`{ allUsers { friends { photos { url } } } allPhotos { likedBy { nick } } }`, `{ allPhotos { likedBy { friends { nick } } } }`}[r.Intn(4)]}
+		in.StoreSeed = r.Int63n(1 << 20)
 	} else if r.Intn(3) != 0 {
 		in = fixedIn(c07Queries[r.Intn(len(c07Queries))])
 		in.StoreSeed = r.Int63n(1 << 20)
@@ -152,6 +157,13 @@ func (c07) Run(c *Ctx, i int) CaseResult {
 		return res
 	}
 	if ok, _ := ref.Status(); !ok {
+		if ref.Out.Err != nil && !ref.Out.PlanErr && !ref.Out.Hung && ref.Out.Panicked == nil {
+			// nothing was injected, every call was answered normally, and yet errors are reported
+			res.Nontrivial = true
+			res.Fails = append(res.Fails, Failure{Channel: "L0.errors", Classifier: "unclassified", What: "no failure occurred but errors are reported: " + firstLine(ref.Out.Err.Error()), Input: in, Expected: ref.Want,
+				Observed: map[string]interface{}{"data": ref.Out.Data, "error": ErrString(ref.Out.Err), "plan": PlanText(ref.Out.Plans)}})
+			return res
+		}
 		res.Skipped = "reference-run-not-ok" // C01's subject
 		return res
 	}
